@@ -74,18 +74,37 @@ enum CallRes {
 
 pub fn run(seed: u64, tasks: usize, calls_per_task: usize, workers: usize) -> Outcome {
     let mut out = Outcome::default();
-    out.desc = json!({"family": "S-threads", "seed": seed, "tasks": tasks, "calls_per_task": calls_per_task, "worker_threads": workers});
+    // configuration diversity: in-flight limit, request buffer, transport kind, server-side limiter
+    let mut cr = Rng::new(seed ^ 0x7C0F);
+    let max_in_flight = *cr.pick(&[1usize, 2, 4, 64]);
+    let req_buffer = *cr.pick(&[1usize, 2, 8]);
+    let bounded: Option<usize> = *cr.pick(&[None, None, Some(1), Some(4)]);
+    let limiter: Option<usize> = *cr.pick(&[None, None, Some(2), Some(16)]);
+    out.desc = json!({"family": "S-threads", "seed": seed, "tasks": tasks, "calls_per_task": calls_per_task, "worker_threads": workers,
+        "max_in_flight_requests": max_in_flight, "pending_request_buffer": req_buffer, "transport": format!("{:?}", bounded), "server_limit": limiter});
     let rt = tokio::runtime::Builder::new_multi_thread().worker_threads(workers).enable_time().build().unwrap();
     let log: Arc<Mutex<Vec<(bool, Item)>>> = Arc::new(Mutex::new(vec![]));
     let results: Arc<Mutex<Vec<(String, CallRes)>>> = Arc::new(Mutex::new(vec![]));
     let handled = Arc::new(AtomicU64::new(0));
     let started = Instant::now();
     let finished = rt.block_on(async {
-        let (ct, st) = tarpc::transport::channel::unbounded::<Response<String>, ClientMessage<String>>();
+        // erase the transport type behind boxed trait objects so that both kinds share the code below
+        type BoxC = Pin<Box<dyn crate::threads::SendC>>;
+        type BoxS = Pin<Box<dyn crate::threads::SendS>>;
+        let (ct, st): (BoxC, BoxS) = match bounded {
+            None => {
+                let (c, s) = tarpc::transport::channel::unbounded::<Response<String>, ClientMessage<String>>();
+                (Box::pin(crate::e2e::ErrBox(c)), Box::pin(crate::e2e::ErrBox(s)))
+            }
+            Some(n) => {
+                let (c, s) = tarpc::transport::channel::bounded::<Response<String>, ClientMessage<String>>(n);
+                (Box::pin(crate::e2e::ErrBox(c)), Box::pin(crate::e2e::ErrBox(s)))
+            }
+        };
         let ct = TMon { inner: ct, log: log.clone() };
         let handled2 = handled.clone();
-        let server = BaseChannel::with_defaults(st)
-            .execute(tarpc::server::serve(move |_ctx, req: String| {
+        let base = BaseChannel::with_defaults(st);
+        let serve_fn = tarpc::server::serve(move |_ctx, req: String| {
                 let h = handled2.clone();
                 async move {
                     let k = h.fetch_add(1, Ordering::Relaxed);
@@ -97,14 +116,18 @@ pub fn run(seed: u64, tasks: usize, calls_per_task: usize, workers: usize) -> Ou
                     }
                     Ok(format!("echo({req})"))
                 }
-            }))
-            .for_each(|f| async move {
-                tokio::spawn(f);
             });
-        let server_task = tokio::spawn(server);
+        let server_task = match limiter {
+            None => tokio::spawn(base.execute(serve_fn).for_each(|f| async move {
+                tokio::spawn(f);
+            })),
+            Some(l) => tokio::spawn(base.max_concurrent_requests(l).execute(serve_fn).for_each(|f| async move {
+                tokio::spawn(f);
+            })),
+        };
         let mut cfg = client::Config::default();
-        cfg.max_in_flight_requests = 64;
-        cfg.pending_request_buffer = 8;
+        cfg.max_in_flight_requests = max_in_flight;
+        cfg.pending_request_buffer = req_buffer;
         let nc = client::new::<String, String, _>(cfg, ct);
         let dispatch_task = tokio::spawn(nc.dispatch);
         let client = nc.client;
@@ -122,13 +145,13 @@ pub fn run(seed: u64, tasks: usize, calls_per_task: usize, workers: usize) -> Ou
                     let outcome = if how < 6 {
                         match c.call(ctx, body.clone()).await {
                             Ok(v) => CallRes::Ok(v),
-                            Err(e) => CallRes::Err(e.to_string()),
+                            Err(e) => CallRes::Err(format!("{e}: {e:?}")),
                         }
                     } else if how < 9 {
                         let us = r.below(400) as u64;
                         match tokio::time::timeout(Duration::from_micros(us), c.call(ctx, body.clone())).await {
                             Ok(Ok(v)) => CallRes::Ok(v),
-                            Ok(Err(e)) => CallRes::Err(e.to_string()),
+                            Ok(Err(e)) => CallRes::Err(format!("{e}: {e:?}")),
                             Err(_) => CallRes::TimedOutLocally,
                         }
                     } else {
@@ -141,7 +164,7 @@ pub fn run(seed: u64, tasks: usize, calls_per_task: usize, workers: usize) -> Ou
                         h.abort();
                         match h.await {
                             Ok(Ok(v)) => CallRes::Ok(v),
-                            Ok(Err(e)) => CallRes::Err(e.to_string()),
+                            Ok(Err(e)) => CallRes::Err(format!("{e}: {e:?}")),
                             Err(_) => CallRes::Aborted,
                         }
                     };
@@ -215,7 +238,11 @@ pub fn run(seed: u64, tasks: usize, calls_per_task: usize, workers: usize) -> Ou
             }
             CallRes::TimedOutLocally | CallRes::Aborted => abandoned += 1,
             CallRes::Err(e) => {
-                out.viol("C02", "threads-unexpected-error", format!("call {body} failed: {e}"));
+                if limiter.is_some() && e.contains("throttled") {
+                    out.count("threads_throttled", 1);
+                } else {
+                    out.viol("C02", "threads-unexpected-error", format!("call {body} failed: {e}"));
+                }
             }
         }
     }
@@ -258,3 +285,8 @@ pub fn run(seed: u64, tasks: usize, calls_per_task: usize, workers: usize) -> Ou
     out.trace = vec![format!("S-threads: {} calls ({} ok, {} abandoned), {} cancels on the wire, {:?} elapsed", results.len(), oks, abandoned, cancels.len(), started.elapsed())];
     out
 }
+
+pub trait SendC: Sink<ClientMessage<String>, Error = crate::e2e::AnyErr> + Stream<Item = Result<Response<String>, crate::e2e::AnyErr>> + Send {}
+impl<T> SendC for T where T: Sink<ClientMessage<String>, Error = crate::e2e::AnyErr> + Stream<Item = Result<Response<String>, crate::e2e::AnyErr>> + Send {}
+pub trait SendS: Sink<Response<String>, Error = crate::e2e::AnyErr> + Stream<Item = Result<ClientMessage<String>, crate::e2e::AnyErr>> + Send {}
+impl<T> SendS for T where T: Sink<Response<String>, Error = crate::e2e::AnyErr> + Stream<Item = Result<ClientMessage<String>, crate::e2e::AnyErr>> + Send {}
